@@ -66,5 +66,45 @@ Definition with_rr (c : libcase) (v : verdict) : verdict :=
 
 Definition run_C01 (c : libcase) : verdict := with_rr c (Check_Norm.run_C01 c).
 Definition run_C02 (c : libcase) : verdict := with_rr c (Check_Norm.run_C02 c).
+
+(* ---------- C01, the reader against an independent account of what the note says -------------
+   [said]: per note (state name), the characters of every Text / Code / InlineHtml event of
+   pulldown-cmark itself (the reader's Options; outside raw HTML blocks - a documented drop - and
+   outside the front matter, which sub-property 2 covers), in document order, white space removed.
+   Sub-property 3: the blocks the reader returned say exactly that - the same characters in the
+   same order: nothing dropped, doubled or moved by the reader before normalization starts. *)
+Definition is_ws (c : ascii) : bool :=
+  let n := Ascii.nat_of_ascii c in Nat.eqb n 32 || Nat.eqb n 10 || Nat.eqb n 13 || Nat.eqb n 9.
+Fixpoint squeeze (s : string) : string :=
+  match s with
+  | EmptyString => EmptyString
+  | String c r => if is_ws c then squeeze r else String c (squeeze r)
+  end.
+
+Fixpoint block_says (b : dblock) {struct b} : string :=
+  let fix go (l : list dblock) : string :=
+    match l with [] => "" | x :: r => block_says x +++ go r end in
+  let fix items (l : list (list dblock)) : string :=
+    match l with [] => "" | it :: r => go it +++ items r end in
+  match b with
+  | DPara _ l | DHeader _ _ l => inlines_plain_text l
+  | DCode _ _ t => t
+  | DQuote _ bs => go bs
+  | DOList its | DBList its => items its
+  | DRule _ => ""
+  | DTable _ h _ rows => sconcat (map inlines_plain_text h) +++ sconcat (map (fun r => sconcat (map inlines_plain_text r)) rows)
+  end.
+Definition blocks_say (bs : list dblock) : string := squeeze (sconcat (map block_says bs)).
+
+Definition p_said (c : libcase) (said : list (string * string)) : bool :=
+  forallb (fun ni => match ni_blocks ni, alookup (ni_name ni) said with
+                     | Ok bs, Some s => String.eqb (blocks_say bs) s
+                     | Panic _, _ => true          (* a reader panic is C03's *)
+                     | _, None => false
+                     end) (lc_notes c).
+
+Definition run_C01o (cs : libcase * list (string * string)) : verdict :=
+  let v := run_C01 (fst cs) in
+  V (v_corr v) (v_prop v ++ flag 3 (p_said (fst cs) (snd cs))) (v_cls v) (v_nontriv v).
 Definition run_C06 (c : libcase) : verdict := with_rr c (Check_Norm.run_C06 c).
 Definition run_C07 (c : libcase) : verdict := with_rr c (Check_Norm.run_C07 c).
